@@ -20,7 +20,6 @@ import (
 	"strings"
 
 	gmtextproto "github.com/emersion/go-message/textproto"
-	"github.com/foxcpp/maddy/framework/address"
 	"github.com/foxcpp/maddy/framework/dns"
 	"github.com/foxcpp/maddy/internal/verifshim/vh"
 	"golang.org/x/net/idna"
@@ -444,20 +443,60 @@ func RecogniseHeader(part []byte, candidates ...int) string {
 
 // ---------------------------------------------------------------- addresses
 
-// Address spellings. kind: 0 ASCII, 1 upper-case ASCII, 2 A-label domain, 3 U-label domain with an
-// ASCII local part, 4 quoted local part, 5 long local part, 6 non-ASCII local part (EAI only),
-// 7 non-ASCII local part and U-label domain (EAI only), 8 no at-sign (malformed), 9 bad A-label.
+// Address spellings, in three groups: forms a client can use without SMTPUTF8 (ASCII local part),
+// forms only an SMTPUTF8 client can use (non-ASCII local part), strings that do not convert.
+//
+//	 0 ASCII                      1 upper-case ASCII            2 A-label domain
+//	 3 U-label domain             4 quoted local part           5 long local part
+//	 6 mixed-case local part and domain
+//	 7 non-ASCII local part       8 non-ASCII local part and U-label domain
+//	 9 local part NOT in NFC: combining sequence (e + U+0301)
+//	10 local part NOT in NFC: singleton U+212B ANGSTROM SIGN
+//	11 compatibility character (U+FB03 ligature; NFC keeps it, NFKC would not)
+//	12 full-width letter + U-label domain
+//	13 quoted, mixed-case, decomposed local part
+//	14 conjoining Hangul jamo (NFC composes a syllable) + A-label domain
+//	15 mixed case with U+00DF, U+0130 (case folding is not 1:1) + upper-case domain
+//	16 no at-sign (malformed)     17 bad A-label
+//
+// The local part is opaque (RFC 5321 2.3.11, RFC 6531 3.2): whatever the report type does to the
+// domain, every one of these local parts has to come back byte for byte.
 var addrForms = []string{
 	"u%d@example.org", "U%d@EXAMPLE.ORG", "user%d@xn--e1afmkfd.example", "user%d@пример.example",
 	"\"a b%d\"@example.org", "very.long.local.part.that.goes.on.and.on.and.on.for.quite.a.while.%d@a-rather-long-domain-name.example.org",
-	"юзер%d@example.org", "üser%d@пример.example", "noat%d", "u%d@xn--0.example",
+	"Mixed.Case%d@Example.ORG",
+	"юзер%d@example.org", "üser%d@пример.example",
+	"e\u0301milie%d@example.com", "\u212bngstrom%d@example.org", "o\ufb03ce%d@example.org",
+	"\uff55ser%d@пример.example", "\"Zoe\u0308 Q%d\"@example.org", "\u1112\u1161\u11abgul%d@xn--e1afmkfd.example",
+	"Stra\u00dfe.\u0130MiXed%d@EXAMPLE.ORG",
+	"noat%d", "u%d@xn--0.example",
 }
 
 const (
-	NumASCIILocalForms = 6  // forms 0..5 can be used by a client without SMTPUTF8
-	NumDeliverable     = 8  // forms 0..7 are proper addresses
-	NumForms           = 10 // 8, 9 do not convert
+	NumASCIILocalForms = 7  // forms 0..6 can be used by a client without SMTPUTF8
+	NumDeliverable     = 16 // forms 0..15 are proper addresses
+	NumForms           = 18 // 16, 17 do not convert
 )
+
+// NonNFCLocal: the local part of the form changes under Unicode normalisation (NFC).
+func NonNFCLocal(addr string) bool {
+	i := strings.LastIndex(addr, "@")
+	if i < 0 {
+		return false
+	}
+	return norm.NFC.String(addr[:i]) != addr[:i]
+}
+
+// LocalPartKept: shown (an address as a report prints it) has exactly the local part of used (the
+// address as the sender wrote it) — byte for byte; the domain is not looked at.  The domain-less
+// postmaster is its own local part.
+func LocalPartKept(shown, used string) bool {
+	i, j := strings.LastIndex(shown, "@"), strings.LastIndex(used, "@")
+	if i < 0 || j < 0 {
+		return shown == used
+	}
+	return shown[:i] == used[:j]
+}
 
 func Addr(form, n int) string { return fmt.Sprintf(addrForms[form], n) }
 
@@ -481,22 +520,43 @@ func SameMailbox(a, b string) bool {
 
 // ---------------------------------------------------------------- IDNA table for the model
 
-// Table renders the conversions the real code would perform on the given strings:
-// a:<in>:<out|!> for address.SelectIDNA, d:<in>:<out|!> for dns.SelectIDNA (hex runes).
+// Table renders what the LIBRARY would answer for the strings of the case (hex runes, ! = error):
+//
+//	pa:<domain>:<out|!>  idna.ToASCII(domain)                       (non-SMTPUTF8 flavour)
+//	pu:<domain>:<out|!>  norm.NFC.String(idna.ToUnicode(domain))    (SMTPUTF8 flavour)
+//	d:<in>:<out|!>       dns.SelectIDNA(utf8, in)
+//
+// for the domain (everything after the last at-sign) of every address.  The address conversion
+// itself (address.Split / ToASCII / ToUnicode / SelectIDNA) is NOT asked of the real code: the
+// model mirrors it, so a change of what it does to the local part shows as a divergence.
 func Table(utf8 bool, addrs []string, doms []string) string {
 	seen := map[string]bool{}
 	var out []string
 	for _, a := range addrs {
-		if a == "" || seen["a"+a] {
+		i := strings.LastIndex(a, "@")
+		if i < 0 || i == len(a)-1 {
 			continue
 		}
-		seen["a"+a] = true
-		r, err := address.SelectIDNA(utf8, a)
+		dom := a[i+1:]
+		if seen["p"+dom] {
+			continue
+		}
+		seen["p"+dom] = true
+		var r string
+		var err error
+		k := "pa:"
+		if utf8 {
+			k = "pu:"
+			r, err = idna.ToUnicode(dom)
+			r = norm.NFC.String(r)
+		} else {
+			r, err = idna.ToASCII(dom)
+		}
 		o := vh.HexRunes(r)
 		if err != nil {
 			o = "!"
 		}
-		out = append(out, "a:"+vh.HexRunes(a)+":"+o)
+		out = append(out, k+vh.HexRunes(dom)+":"+o)
 	}
 	for _, d := range doms {
 		if d == "" || seen["d"+d] {
